@@ -1,5 +1,8 @@
 import XtModel.Lemmas.Input
 import XtModel.Model.Detect
+import XtModel.Lemmas.Translate
+import XtModel.Props.Json
+import XtModel.Props.C18
 
 /-!
 # C09 — Format detection is a transparent, total pre-selection step
@@ -13,7 +16,14 @@ Obligations (listed in props/C09.py): `capture_transparent`,
 `detection_then_takeover`, `eof_flips_to_slice`,
 `eof_only_at_end`, `capture_error_keeps_bytes`, `fault_met_again`,
 `capture_released`, `no_panic_input`, `detect_is_first_match`, `detect_none`,
-`detect_io_only_from_source`, `msgpack_marker_table`, `toml_trial_capped`.
+`detect_io_only_from_source`, `msgpack_marker_table`, `toml_trial_capped`;
+and, about the model of `Translator::translate` with `from = None` as a
+composition (`Model/Translate.lean`, last section of this file):
+`translate_no_panic`, `detect_is_decision_list`, `detect_then_explicit`,
+`detect_then_explicit_msgpack`, `detect_then_explicit_json_partial`,
+`detect_slice_eq_reader_msgpack`, `detect_slice_eq_reader_json_partial`,
+`detect_reads_first_doc_only`, `detect_msgpack_trial_reads_enough`,
+`detected_translatable_same_format`.
 
 The handle theorems quantify over every source (data, read schedule, optional
 persistent fault) and every program — a list of `borrow`, `read n`, `prefix n`
@@ -960,6 +970,617 @@ example : msgpackMatches (.ok [0x92, 1]) (.readErr true) = .noMatch ∧
     msgpackMatches (.ok [0x92, 1]) (.readErr false) = .ioErr ∧
     msgpackMatches (.ok [0xdc, 0x90, 0x3a, 0x20, 0x31, 0x0a]) (.readErr true) = .noMatch := by decide
 
+/-! ## `Translator::translate` with `from = None`, as a composition
+
+`Model/Translate.lean`: `detect_format` is the decision list above run with
+early exit over four trials on ONE handle (the Input model); the MessagePack
+and JSON trials are the concrete decoders of the C18 / JSON slices together
+with how far they read through a reader borrow; after detection
+`Input::from(handle)` decides what the selected module is given.  Lemmas in
+`Lemmas/Translate.lean`. -/
+section TranslateComposition
+open Xt.Translate
+
+/-- **No panic site of the input handle is reachable from `translate`** — for
+every input (slice, or a reader with any read schedule and any fault offset),
+explicit or detected format, every behaviour of the YAML / TOML parsers and
+every per-format runner. -/
+theorem translate_no_panic {R : Type} (E : Ext) (F : Runners R) (from_ : Option Fmt) (src : Src) :
+    ∀ s, translate E F from_ src ≠ .panic s := by
+  intro s
+  unfold translate
+  cases from_ with
+  | some f => simp
+  | none =>
+    simp only
+    have := (detectOn_keeps E src.bytes src.fa src.handle (HInv.ofSrc src)).2.1
+    split
+    · rename_i s' _ hd
+      exact absurd (by rw [hd]) (this s')
+    · simp
+    · simp
+    · simp
+
+/-- **Detection is `Detect.detectFormat` over the four trials run one after the
+other on the same handle** (each on a rewound borrow of the handle as the
+previous trial left it; trials behind the deciding one are not run). -/
+theorem detect_is_decision_list (E : Ext) (h : Handle) (tm tj ty tt : Trial)
+    (hm : (mpTrial h).1 = .answer tm)
+    (hj : tm = .noMatch → (jsonTrial (mpTrial h).2).1 = .answer tj)
+    (hy : tm = .noMatch → tj = .noMatch →
+      (yamlTrial E (jsonTrial (mpTrial h).2).2).1 = .answer ty)
+    (ht : tm = .noMatch → tj = .noMatch → ty = .noMatch →
+      (tomlTrialStep E (yamlTrial E (jsonTrial (mpTrial h).2).2).2).1 = .answer tt) :
+    (detectOn E h).1 = .det (detectFormat tm tj ty tt) :=
+  detectOn_decision E h tm tj ty tt hm hj hy ht
+
+/-- **Detection, then the explicit run.**  For every input without a source
+fault (a slice, or a reader with ANY read schedule), every behaviour of the
+YAML / TOML parsers and every per-format runner: if detection selects `f`, then
+`translate(None)` is `run f seen'`, where `seen'` carries exactly the original
+bytes and is a reader unless the handle is in slice mode after detection — a
+slice input, or a reader whose source reported its end to one of the trials
+(`source_eof`, `eof_flips_to_slice`).  Equivalently, it is the explicit
+`translate(Some(f))` of the input `srcOf seen'` that has the same bytes in that
+supply mode.  (With the per-format slice/reader theorems this becomes "the
+explicit run in the ORIGINAL mode": `detect_then_explicit_msgpack`,
+`detect_then_explicit_json_partial`.) -/
+theorem detect_then_explicit {R : Type} (E : Ext) (F : Runners R) (src : Src) (hnf : src.noFault)
+    (f : Fmt) (hdet : (detectOn E src.handle).1 = .det (.fmt f)) :
+    ∃ seen', (seen' = if sliceMode (detectOn E src.handle).2 then Xt.Translate.Seen.slice src.bytes
+        else Xt.Translate.Seen.reader src.bytes false) ∧
+      translate E F none src = .ran (F.run f seen') ∧
+      translate E F none src = translate E F (some f) (srcOf seen') ∧
+      (sliceMode src.handle = true → seen' = .slice src.bytes) := by
+  have hinv := HInv.ofSrc src
+  rw [noFault_fa hnf] at hinv
+  obtain ⟨k1, _, _⟩ := detectOn_keeps E src.bytes none src.handle hinv
+  have hseen := seenOfHandle_spec k1
+  have hmode : sliceMode src.handle = true → sliceMode (detectOn E src.handle).2 = true := by
+    intro hs
+    cases src with
+    | reader s => simp [Src.handle, sliceMode_fromReader] at hs
+    | slice bs =>
+      -- every trial returns a slice handle unchanged
+      have km := mpTrialWith_keeps mpChunk
+      have kj := jsonTrialWith_keeps jsonChunk
+      have ky := yamlTrialWith_keeps yamlChunk E
+      have kt := tomlTrialStep_keeps E
+      have i0 : HInv bs none (.slice bs) := rfl
+      have m1 := km.mode _ _ _ i0 rfl
+      have i1 := km.inv _ _ _ i0
+      have m2 := kj.mode _ _ _ i1 m1
+      have i2 := kj.inv _ _ _ i1
+      have m3 := ky.mode _ _ _ i2 m2
+      have i3 := ky.inv _ _ _ i2
+      have m4 := kt.mode _ _ _ i3 m3
+      simp only [Src.handle]
+      unfold detectOn
+      simp only
+      split
+      · exact m1
+      · split
+        · exact m2
+        · split
+          · exact m3
+          · split
+            · exact m4
+            · exact m4
+  refine ⟨_, rfl, ?_, ?_, ?_⟩
+  · unfold translate
+    simp only
+    split
+    · rename_i s _ hd; rw [hd] at hdet; simp at hdet
+    · rename_i f' h' hd
+      have e1 : (detectOn E src.handle).1 = .det (.fmt f') := by rw [hd]
+      have e2 : (detectOn E src.handle).2 = h' := by rw [hd]
+      rw [hdet] at e1
+      simp only [DetRes.det.injEq, Detected.fmt.injEq] at e1
+      subst e1
+      rw [← e2, hseen]
+    · rename_i _ hd; rw [hd] at hdet; simp at hdet
+    · rename_i _ hd; rw [hd] at hdet; simp at hdet
+  · have hleft : translate E F none src = .ran (F.run f (if sliceMode (detectOn E src.handle).2
+        then Xt.Translate.Seen.slice src.bytes else Xt.Translate.Seen.reader src.bytes false)) := by
+      unfold translate
+      simp only
+      split
+      · rename_i s _ hd; rw [hd] at hdet; simp at hdet
+      · rename_i f' h' hd
+        have e1 : (detectOn E src.handle).1 = .det (.fmt f') := by rw [hd]
+        have e2 : (detectOn E src.handle).2 = h' := by rw [hd]
+        rw [hdet] at e1
+        simp only [DetRes.det.injEq, Detected.fmt.injEq] at e1
+        subst e1
+        rw [← e2, hseen]
+      · rename_i _ hd; rw [hd] at hdet; simp at hdet
+      · rename_i _ hd; rw [hd] at hdet; simp at hdet
+    rw [hleft]
+    obtain ⟨q1, q2⟩ := seenOfHandle_srcOf src.bytes
+    cases hm : sliceMode (detectOn E src.handle).2 with
+    | true => simp only [↓reduceIte, translate, q1]
+    | false => simp only [Bool.false_eq_true, ↓reduceIte, translate, q2]
+  · intro hs
+    simp only [hmode hs, ↓reduceIte]
+
+/-- What `msgpack::transcode` produces for the same bytes does not depend on the
+supply mode (`msgpack_slice_eq_reader`). -/
+theorem msgpackRun_agree {X : Type} (bs : List Nat) (a b : Xt.Translate.Seen)
+    (ha : a = .slice bs ∨ a = .reader bs false) (hb : b = .slice bs ∨ b = .reader bs false) :
+    ∃ d1 v1 d2 v2, msgpackRun (X := X) a = .msgpack d1 v1 ∧ msgpackRun (X := X) b = .msgpack d2 v2 ∧
+      d1 = d2 ∧ (v1 = .ok ↔ v2 = .ok) := by
+  obtain ⟨e1, e2, _, _⟩ := Xt.Props.C18.msgpack_slice_eq_reader bs
+  rcases ha with rfl | rfl <;> rcases hb with rfl | rfl
+  · exact ⟨_, _, _, _, rfl, rfl, rfl, Iff.rfl⟩
+  · exact ⟨_, _, _, _, rfl, rfl, e1, e2⟩
+  · exact ⟨_, _, _, _, rfl, rfl, e1.symm, e2.symm⟩
+  · exact ⟨_, _, _, _, rfl, rfl, rfl, Iff.rfl⟩
+
+/-- **A detected MessagePack input translates like the explicit run in the
+ORIGINAL supply mode** — same documents, same verdict (success or failure) —
+for every input without a source fault, unconditionally: whether or not the
+handle turned into a slice during detection is invisible
+(`detect_then_explicit` + `msgpack_slice_eq_reader`). -/
+theorem detect_then_explicit_msgpack {X : Type} (E : Ext) (yaml toml : Xt.Translate.Seen → X) (src : Src)
+    (hnf : src.noFault) (hdet : (detectOn E src.handle).1 = .det (.fmt .msgpack)) :
+    ∃ d1 v1 d2 v2,
+      translate E (concrete yaml toml) none src = .ran (.msgpack d1 v1) ∧
+      translate E (concrete yaml toml) (some .msgpack) src = .ran (.msgpack d2 v2) ∧
+      d1 = d2 ∧ (v1 = .ok ↔ v2 = .ok) := by
+  obtain ⟨seen', hs, h1, _, _⟩ := detect_then_explicit E (concrete yaml toml) src hnf .msgpack hdet
+  have hinv := HInv.ofSrc src
+  rw [noFault_fa hnf] at hinv
+  have h2 : translate E (concrete yaml toml) (some .msgpack) src =
+      .ran (msgpackRun (seenOfHandle src.handle)) := rfl
+  rw [seenOfHandle_spec hinv] at h2
+  have ha : seen' = .slice src.bytes ∨ seen' = .reader src.bytes false := by
+    rw [hs]; split <;> simp
+  have hb : (if sliceMode src.handle then Xt.Translate.Seen.slice src.bytes else Xt.Translate.Seen.reader src.bytes false) =
+      .slice src.bytes ∨ (if sliceMode src.handle then Xt.Translate.Seen.slice src.bytes
+        else Xt.Translate.Seen.reader src.bytes false) = .reader src.bytes false := by
+    split <;> simp
+  obtain ⟨d1, v1, d2, v2, r1, r2, r3, r4⟩ := msgpackRun_agree (X := X) src.bytes _ _ ha hb
+  refine ⟨d1, v1, d2, v2, ?_, ?_, r3, r4⟩
+  · rw [h1]; exact congrArg _ r1
+  · rw [h2]; exact congrArg _ r2
+
+/-- How two runs of `json::transcode` on the same bytes relate outside K1. -/
+def JsonAgree (bs : List Nat) (d1 : List Xt.Json.JVal) (v1 : Xt.Json.Verdict)
+    (d2 : List Xt.Json.JVal) (v2 : Xt.Json.Verdict) : Prop :=
+  (v1 = .ok ↔ v2 = .ok) ∧ (v1 = .ok → d1 = d2) ∧ (d1 <+: d2 ∨ d2 <+: d1) ∧
+  (Xt.Json.validUtf8 bs = true → d1 = d2 ∧ v1 = v2)
+
+theorem jsonRun_agree {X : Type} (bs : List Nat) (hk1 : Xt.Json.hasUnseparatedScalar bs = false)
+    (a b : Xt.Translate.Seen) (ha : a = .slice bs ∨ a = .reader bs false)
+    (hb : b = .slice bs ∨ b = .reader bs false) :
+    ∃ d1 v1 d2 v2, jsonRun (X := X) a = .json d1 v1 ∧ jsonRun (X := X) b = .json d2 v2 ∧
+      JsonAgree bs d1 v1 d2 v2 := by
+  obtain ⟨e1, e2, e3, e4⟩ := Xt.Props.Json.json_slice_eq_reader_partial bs hk1
+  rcases ha with rfl | rfl <;> rcases hb with rfl | rfl
+  · exact ⟨_, _, _, _, rfl, rfl, Iff.rfl, fun _ => rfl, Or.inl (List.prefix_refl _), fun _ => ⟨rfl, rfl⟩⟩
+  · refine ⟨_, _, _, _, rfl, rfl, e1, e2, Or.inl e3, fun hv => ?_⟩
+    rw [e4 hv]; exact ⟨rfl, rfl⟩
+  · refine ⟨_, _, _, _, rfl, rfl, e1.symm, ?_, Or.inr e3, fun hv => ?_⟩
+    · intro h; exact (e2 (e1.mpr h)).symm
+    · rw [e4 hv]; exact ⟨rfl, rfl⟩
+  · exact ⟨_, _, _, _, rfl, rfl, Iff.rfl, fun _ => rfl, Or.inl (List.prefix_refl _), fun _ => ⟨rfl, rfl⟩⟩
+
+/-- **A detected JSON input translates like the explicit run in the ORIGINAL
+supply mode**, `_partial`: outside known finding K1's class
+(`hasUnseparatedScalar`, where the slice path and the reader path of
+`json::transcode` themselves disagree — `json_unseparated_counterexample`; the
+detected run of a reader takes the slice path exactly when the first value is
+a number that ends the input, `detect_reads_first_doc_only`), for every input
+without a source fault: the same verdict; on success the same documents;
+on failure the documents of one run are a prefix of the other's; on well-formed
+UTF-8 the two runs are equal outright.  Missing for the full statement: K1
+(an unrepaired defect of xt, not of the proof). -/
+theorem detect_then_explicit_json_partial {X : Type} (E : Ext) (yaml toml : Xt.Translate.Seen → X) (src : Src)
+    (hnf : src.noFault) (hk1 : Xt.Json.hasUnseparatedScalar src.bytes = false)
+    (hdet : (detectOn E src.handle).1 = .det (.fmt .json)) :
+    ∃ d1 v1 d2 v2,
+      translate E (concrete yaml toml) none src = .ran (.json d1 v1) ∧
+      translate E (concrete yaml toml) (some .json) src = .ran (.json d2 v2) ∧
+      JsonAgree src.bytes d1 v1 d2 v2 := by
+  obtain ⟨seen', hs, h1, _, _⟩ := detect_then_explicit E (concrete yaml toml) src hnf .json hdet
+  have hinv := HInv.ofSrc src
+  rw [noFault_fa hnf] at hinv
+  have h2 : translate E (concrete yaml toml) (some .json) src =
+      .ran (jsonRun (seenOfHandle src.handle)) := rfl
+  rw [seenOfHandle_spec hinv] at h2
+  have ha : seen' = .slice src.bytes ∨ seen' = .reader src.bytes false := by
+    rw [hs]; split <;> simp
+  have hb : (if sliceMode src.handle then Xt.Translate.Seen.slice src.bytes else Xt.Translate.Seen.reader src.bytes false) =
+      .slice src.bytes ∨ (if sliceMode src.handle then Xt.Translate.Seen.slice src.bytes
+        else Xt.Translate.Seen.reader src.bytes false) = .reader src.bytes false := by
+    split <;> simp
+  obtain ⟨d1, v1, d2, v2, r1, r2, r3⟩ := jsonRun_agree (X := X) src.bytes hk1 _ _ ha hb
+  refine ⟨d1, v1, d2, v2, ?_, ?_, r3⟩
+  · rw [h1]; exact congrArg _ r1
+  · rw [h2]; exact congrArg _ r2
+
+/-- **The MessagePack trial answers the same for a slice and for a reader**, for
+ALL inputs, under every read schedule and every request size, at any point of
+detection (any handle state that satisfies the capture invariant, a reader that
+has turned into a slice included), without a source fault. -/
+theorem detect_slice_eq_reader_msgpack (bs : List Nat) (chunk : Nat) :
+    (∀ s : Source, s.data = bs → s.failAt = none →
+      (mpTrialWith chunk (Handle.fromReader s)).1 = (mpTrialWith chunk (.slice bs)).1) ∧
+    (∀ h : Handle, HInv bs none h → (mpTrialWith chunk h).1 = (mpTrialWith chunk (.slice bs)).1) := by
+  have hgen : ∀ h : Handle, HInv bs none h →
+      (mpTrialWith chunk h).1 = (mpTrialWith chunk (.slice bs)).1 := by
+    intro h hi
+    rw [mpTrialWith_answer chunk hi, mpTrialWith_answer chunk (orig := bs) (h := .slice bs) rfl]
+  refine ⟨?_, hgen⟩
+  intro s hd hf
+  apply hgen
+  subst hd
+  exact ⟨Inv.new s, hf⟩
+
+/-- **The JSON trial answers the same for a slice and for a reader on every
+input that is valid UTF-8** (`_partial`: the side condition is exact — the two
+answers are equal IF AND ONLY IF the input is valid UTF-8 or the reader trial
+declines too; K7, `json_trial_differs_counterexample`, is an input on which
+they differ, so the condition cannot be dropped on this tree), under every read
+schedule and request size, without a source fault. -/
+theorem detect_slice_eq_reader_json_partial (bs : List Nat) (chunk : Nat) (s : Source)
+    (hd : s.data = bs) (hf : s.failAt = none) :
+    (Xt.Json.validUtf8 bs = true →
+      (jsonTrialWith chunk (Handle.fromReader s)).1 = (jsonTrialWith chunk (.slice bs)).1) ∧
+    ((jsonTrialWith chunk (Handle.fromReader s)).1 = (jsonTrialWith chunk (.slice bs)).1 ↔
+      (Xt.Json.validUtf8 bs = true ∨ Xt.Json.trialReader bs = false)) := by
+  subst hd
+  have hr := jsonTrialWith_answer chunk (orig := s.data) (h := Handle.fromReader s) ⟨Inv.new s, hf⟩
+  have hs := jsonTrialWith_answer chunk (orig := s.data) (h := .slice s.data) rfl
+  rw [hr, hs]
+  have e1 : sliceMode (Handle.fromReader s) = false := rfl
+  have e2 : sliceMode (Handle.slice s.data) = true := rfl
+  rw [e1, e2]
+  simp only [Bool.false_eq_true, ↓reduceIte]
+  cases hv : Xt.Json.validUtf8 s.data <;> cases ht : Xt.Json.trialReader s.data <;>
+    simp [jsonMatches, jsonClass, ht]
+
+/-- K7 on the composed model: the bytes of `json_trial_differs_counterexample`
+(`1: é\n` in UTF-16LE) are declined by the JSON trial on a slice and accepted on
+a reader. -/
+theorem detect_slice_ne_reader_json_counterexample :
+    let bs := [0x31, 0x00, 0x3A, 0x00, 0x20, 0x00, 0xE9, 0x00, 0x0A, 0x00]
+    (jsonTrial (.slice bs)).1 = .answer .noMatch ∧
+    (jsonTrial (Handle.fromReader (Source.new bs [] false none))).1 = .answer .matched := by
+  obtain ⟨k1, k2⟩ := Xt.Props.Json.json_trial_differs_counterexample
+  simp only at k1 k2 ⊢
+  have hv : Xt.Json.validUtf8 [0x31, 0x00, 0x3A, 0x00, 0x20, 0x00, 0xE9, 0x00, 0x0A, 0x00] = false := by
+    decide
+  constructor
+  · rw [jsonTrial, jsonTrialWith_answer jsonChunk (orig := _) (h := .slice _) rfl]
+    simp [sliceMode, hv, jsonMatches]
+  · have hi : HInv [0x31, 0x00, 0x3A, 0x00, 0x20, 0x00, 0xE9, 0x00, 0x0A, 0x00] none
+        (Handle.fromReader (Source.new [0x31, 0x00, 0x3A, 0x00, 0x20, 0x00, 0xE9, 0x00, 0x0A, 0x00] [] false none)) :=
+      ⟨Inv.new (Source.new [0x31, 0x00, 0x3A, 0x00, 0x20, 0x00, 0xE9, 0x00, 0x0A, 0x00] [] false none), rfl⟩
+    rw [jsonTrial, jsonTrialWith_answer jsonChunk hi]
+    have e1 : sliceMode (Handle.fromReader
+        (Source.new [0x31, 0x00, 0x3A, 0x00, 0x20, 0x00, 0xE9, 0x00, 0x0A, 0x00] [] false none)) = false := rfl
+    rw [e1]
+    simp [jsonMatches, jsonClass, k2]
+
+/-- **Detection reads the first document only** (feeds C05).  On a reader
+without a source fault, under every read schedule: when detection selects
+MessagePack, the bytes in the capture buffer afterwards are exactly the first
+value (the decoder's extent) and the handle is still a reader; when it selects
+JSON, they are exactly the first value plus — for a top-level number — the one
+look-ahead byte that ends it (capped by the input's length), and the handle has
+turned into a slice exactly when that number ends the input (the look-ahead
+request was answered "end of input").  So what `translate` holds when the
+selected module takes over is bounded by the first document + 1 byte, whatever
+follows it in the stream. -/
+theorem detect_reads_first_doc_only (E : Ext) (s : Source) (hnf : s.failAt = none) :
+    ((detectOn E (Handle.fromReader s)).1 = .det (.fmt .msgpack) →
+      ∃ v rest, mpDecode s.data = .ok (v, rest) ∧
+        captured (detectOn E (Handle.fromReader s)).2 = s.data.length - rest.length ∧
+        sliceMode (detectOn E (Handle.fromReader s)).2 = false) ∧
+    ((detectOn E (Handle.fromReader s)).1 = .det (.fmt .json) →
+      ∃ rest, Xt.Json.ignoreValue s.data = .ok rest ∧
+        captured (detectOn E (Handle.fromReader s)).2 =
+          min (s.data.length - rest.length + (if topNumber s.data then 1 else 0)) s.data.length ∧
+        (sliceMode (detectOn E (Handle.fromReader s)).2 = true ↔
+          (rest = [] ∧ topNumber s.data = true))) := by
+  have hfr : Handle.fromReader s = .reader (Cap.new s) := rfl
+  rw [hfr]
+  have hi0 : HInv s.data none (.reader (Cap.new s)) := ⟨Inv.new s, hnf⟩
+  have hext := mpTrialWith_extent mpChunk (Inv.new s) hnf rfl
+  have hansM := mpTrialWith_answer mpChunk hi0
+  constructor
+  · intro hdet
+    obtain ⟨m1, m2⟩ := detectOn_msgpack E (.reader (Cap.new s))
+    have hmatched := m1.mp hdet
+    rw [m2 hmatched]
+    rw [mpTrial, hansM] at hmatched
+    simp only [Step.answer.injEq] at hmatched
+    obtain ⟨b, v, rest, _, _, hdec, hdem, hd1, hd2⟩ := mp_matched_demand s.data hmatched
+    obtain ⟨e1, e2⟩ := hext.1 hd2
+    refine ⟨v, rest, hdec, ?_, e2⟩
+    rw [mpTrial, e1, hdem]
+    simp only [Cap.new, List.length_nil]
+    omega
+  · intro hdet
+    obtain ⟨j1, j2⟩ := detectOn_json E (.reader (Cap.new s))
+    obtain ⟨hmNo, hjYes⟩ := j1.mp hdet
+    rw [j2 hmNo hjYes]
+    have hi1 : HInv s.data none (mpTrial (.reader (Cap.new s))).2 :=
+      (mpTrialWith_keeps mpChunk).inv _ _ _ hi0
+    -- the JSON trial matched: the reader trial accepts, so the first byte is below 0x80
+    have hansJ := jsonTrialWith_answer jsonChunk hi1
+    rw [jsonTrial, hansJ] at hjYes
+    simp only [Step.answer.injEq] at hjYes
+    have htr : Xt.Json.trialReader s.data = true := by
+      cases ht : Xt.Json.trialReader s.data with
+      | true => rfl
+      | false =>
+        exfalso
+        simp only [jsonClass, ht] at hjYes
+        revert hjYes
+        generalize (if sliceMode (mpTrial (Handle.reader (Cap.new s))).2 = true
+          then RefIn.slice (Xt.Json.validUtf8 s.data) else RefIn.reader) = r
+        cases r with
+        | reader => simp [jsonMatches]
+        | slice u => cases u <;> simp [jsonMatches]
+    obtain ⟨rest, hig, hlt, hdem⟩ := json_matched_demand s.data htr
+    -- so the MessagePack trial only looked at one byte
+    have hMdem : mpTrialDemand s.data = 1 := by
+      cases hsd : s.data with
+      | nil => rw [hsd] at hlt; simp at hlt
+      | cons b t =>
+        simp only [mpTrialDemand, List.head?_cons]
+        by_cases hmt : markerTest b = true
+        · exfalso
+          have := trialReader_high b t (markerTest_high b hmt)
+          rw [hsd] at htr
+          rw [htr] at this
+          simp at this
+        · simp [hmt]
+    obtain ⟨e1, e2⟩ := hext.1 (by rw [hMdem]; omega)
+    rw [hMdem] at e1
+    -- the handle the JSON trial starts from: a reader with one byte captured
+    cases hh1 : (mpTrial (.reader (Cap.new s))).2 with
+    | slice bs => rw [mpTrial] at hh1; rw [hh1] at e2; simp [sliceMode] at e2
+    | reader c1 =>
+      rw [hh1] at hi1
+      obtain ⟨hinv1, hfa1⟩ := hi1
+      rw [mpTrial] at hh1
+      rw [hh1] at e1 e2
+      simp only [captured, Cap.new, List.length_nil] at e1
+      simp only [sliceMode] at e2
+      have hjext := jsonTrialWith_extent jsonChunk hinv1 hfa1 e2
+      refine ⟨rest, hig, ?_, ?_⟩
+      · by_cases hle : jsonDemand s.data ≤ s.data.length
+        · rw [jsonTrial, (hjext.1 hle).1, hdem, e1]
+          rw [hdem] at hle
+          omega
+        · rw [jsonTrial, (hjext.2 (by omega)).1]
+          rw [hdem] at hle
+          omega
+      · by_cases hle : jsonDemand s.data ≤ s.data.length
+        · rw [jsonTrial, (hjext.1 hle).2]
+          rw [hdem] at hle
+          constructor
+          · intro h; simp at h
+          · rintro ⟨hr, ht⟩
+            exfalso
+            rw [hr, ht] at hle
+            simp only [List.length_nil, ↓reduceIte] at hle
+            omega
+        · rw [jsonTrial, (hjext.2 (by omega)).2]
+          rw [hdem] at hle
+          refine ⟨fun _ => ?_, fun _ => rfl⟩
+          by_cases htn : topNumber s.data = true
+          · refine ⟨List.eq_nil_of_length_eq_zero ?_, htn⟩
+            rw [htn] at hle
+            simp only [↓reduceIte] at hle
+            omega
+          · exfalso
+            simp only [htn, Bool.false_eq_true, ↓reduceIte] at hle
+            omega
+
+/-- The demand of a matching MessagePack trial is sufficient: the decoder's
+answer is a function of the bytes it captured — whatever follows the first
+value in the stream (any bytes, or nothing), it reads the same value from those
+bytes and leaves the continuation untouched (`decodeG_local`).  (The converse —
+on every shorter prefix the decoder runs out of input — and both statements for
+the JSON trial are not proved; they are what the `trialextent` correspondence
+samples, on every prefix of fixed inputs.) -/
+theorem detect_msgpack_trial_reads_enough (bs : List Nat) (v : Xt.Msgpack.MVal) (rest : List Nat)
+    (h : mpDecode bs = .ok (v, rest)) :
+    rest.length < bs.length ∧
+    ∀ y, mpDecode (bs.take (bs.length - rest.length) ++ y) = .ok (v, y) := by
+  obtain ⟨used, e, g⟩ := Xt.Msgpack.decodeG_local true Xt.Msgpack.depthLimit bs v rest h
+  refine ⟨Xt.Msgpack.decodeG_lt true Xt.Msgpack.depthLimit bs v rest h, ?_⟩
+  intro y
+  subst e
+  have : (used ++ rest).length - rest.length = used.length := by simp
+  rw [this, List.take_left']
+  · exact g y
+  · rfl
+
+/-- **Detection of JSON and MessagePack does not depend on the supply mode.**
+For every behaviour of the YAML / TOML parsers, every two inputs with the same
+bytes and no source fault (a slice, readers with any read schedules):
+MessagePack is selected for one iff for the other, unconditionally; JSON
+likewise when the bytes are valid UTF-8.  In particular every input that
+`translate(None)` translates successfully as JSON (its bytes are then valid
+UTF-8: the slice path checks it, a successful reader run implies it —
+`json_reader_ok_is_utf8`) or translates, successfully or not, as MessagePack,
+is detected as the same format from a slice and from every reader. -/
+theorem detected_translatable_same_format {X : Type} (E : Ext) (yaml toml : Xt.Translate.Seen → X)
+    (src src' : Src) (hb : src'.bytes = src.bytes) (hnf : src.noFault) (hnf' : src'.noFault) :
+    ((detectOn E src.handle).1 = .det (.fmt .msgpack) ↔
+      (detectOn E src'.handle).1 = .det (.fmt .msgpack)) ∧
+    (Xt.Json.validUtf8 src.bytes = true →
+      ((detectOn E src.handle).1 = .det (.fmt .json) ↔
+        (detectOn E src'.handle).1 = .det (.fmt .json))) ∧
+    (∀ d, translate E (concrete yaml toml) none src = .ran (.json d .ok) →
+      (detectOn E src'.handle).1 = .det (.fmt .json)) ∧
+    (∀ d v, translate E (concrete yaml toml) none src = .ran (.msgpack d v) →
+      (detectOn E src'.handle).1 = .det (.fmt .msgpack)) := by
+  have hi := HInv.ofSrc src
+  rw [noFault_fa hnf] at hi
+  have hi' := HInv.ofSrc src'
+  rw [noFault_fa hnf', hb] at hi'
+  have km := mpTrialWith_keeps mpChunk
+  have hi1 := km.inv _ _ _ hi
+  have hi1' := km.inv _ _ _ hi'
+  have aM := mpTrialWith_answer mpChunk hi
+  have aM' := mpTrialWith_answer mpChunk hi'
+  have aJ := jsonTrialWith_answer jsonChunk hi1
+  have aJ' := jsonTrialWith_answer jsonChunk hi1'
+  have hM : (detectOn E src.handle).1 = .det (.fmt .msgpack) ↔
+      (detectOn E src'.handle).1 = .det (.fmt .msgpack) := by
+    rw [(detectOn_msgpack E src.handle).1, (detectOn_msgpack E src'.handle).1, mpTrial, mpTrial, aM, aM']
+  have hJ : Xt.Json.validUtf8 src.bytes = true →
+      ((detectOn E src.handle).1 = .det (.fmt .json) ↔
+        (detectOn E src'.handle).1 = .det (.fmt .json)) := by
+    intro hv
+    rw [(detectOn_json E src.handle).1, (detectOn_json E src'.handle).1]
+    simp only [mpTrial, jsonTrial] at *
+    rw [aM, aM', aJ, aJ', hv]
+    have : ∀ m : Bool, jsonMatches (if m then RefIn.slice true else RefIn.reader) (jsonClass src.bytes) =
+        jsonMatches .reader (jsonClass src.bytes) := by
+      intro m; cases m <;> cases jsonClass src.bytes <;> rfl
+    rw [this, this]
+  refine ⟨hM, hJ, ?_, ?_⟩
+  · intro d htr
+    -- the run was a JSON run: detection selected JSON, and it succeeded: valid UTF-8
+    have hk := (detectOn_keeps E src.bytes none src.handle hi).1
+    have hseen := seenOfHandle_spec hk
+    unfold translate at htr
+    simp only at htr
+    split at htr
+    · simp at htr
+    · rename_i f h' hd
+      have e1 : (detectOn E src.handle).1 = .det (.fmt f) := by rw [hd]
+      have e2 : (detectOn E src.handle).2 = h' := by rw [hd]
+      cases f with
+      | json =>
+        rw [← e2, hseen] at htr
+        simp only [Outcome.ran.injEq, Runners.run, concrete] at htr
+        have hv : Xt.Json.validUtf8 src.bytes = true := by
+          split at htr
+          · simp only [jsonRun, Run.json.injEq] at htr
+            cases hvv : Xt.Json.validUtf8 src.bytes with
+            | true => rfl
+            | false => simp [Xt.Json.sliceLoop, hvv] at htr
+          · simp only [jsonRun, Run.json.injEq] at htr
+            exact Xt.Props.Json.json_reader_ok_is_utf8 _ htr.2
+        exact (hJ hv).mp e1
+      | msgpack =>
+        simp only [Outcome.ran.injEq, Runners.run, concrete] at htr
+        cases hs : seenOfHandle h' with
+        | slice bs => rw [hs] at htr; simp [msgpackRun] at htr
+        | reader bs fl => rw [hs] at htr; cases fl <;> simp [msgpackRun] at htr
+      | yaml => simp [Runners.run, concrete] at htr
+      | toml => simp [Runners.run, concrete] at htr
+    · simp at htr
+    · simp at htr
+  · intro d v htr
+    unfold translate at htr
+    simp only at htr
+    split at htr
+    · simp at htr
+    · rename_i f h' hd
+      have e1 : (detectOn E src.handle).1 = .det (.fmt f) := by rw [hd]
+      cases f with
+      | msgpack => exact hM.mp e1
+      | json =>
+        simp only [Outcome.ran.injEq, Runners.run, concrete] at htr
+        cases hs : seenOfHandle h' with
+        | slice bs => rw [hs] at htr; simp [jsonRun] at htr
+        | reader bs fl => rw [hs] at htr; cases fl <;> simp [jsonRun] at htr
+      | yaml => simp [Runners.run, concrete] at htr
+      | toml => simp [Runners.run, concrete] at htr
+    · simp at htr
+    · simp at htr
+
+/-! Non-vacuity of the composition theorems: concrete inputs through the whole
+model.  (`decide` does not reduce the WF-recursive decoders, so the instances
+are obtained from the theorems.) -/
+
+/-- A stand-in for the parameters: YAML and TOML decline everything. -/
+def declining : Ext :=
+  { yamlSlice := fun _ => .noMatch, yamlReader := fun bs => (.noMatch, bs.length + 1),
+    tomlUtf8 := fun _ => true, tomlParses := fun _ => false }
+
+/-- `92 01 02 c0` through a one-byte-at-a-time reader: MessagePack is selected
+(first byte a fixarray marker, the decoder reads `[1, 2]`), exactly the three
+bytes of the first value are captured, and the handle is still a reader. -/
+theorem sample_msgpack_detected :
+    (detectOn declining (Handle.fromReader (Source.new [0x92, 1, 2, 0xc0] [1] true none))).1 =
+      .det (.fmt .msgpack) ∧
+    captured (detectOn declining (Handle.fromReader (Source.new [0x92, 1, 2, 0xc0] [1] true none))).2 = 3 ∧
+    sliceMode (detectOn declining (Handle.fromReader (Source.new [0x92, 1, 2, 0xc0] [1] true none))).2 = false := by
+  have hi : HInv [0x92, 1, 2, 0xc0] none (Handle.fromReader (Source.new [0x92, 1, 2, 0xc0] [1] true none)) :=
+    ⟨Inv.new (Source.new [0x92, 1, 2, 0xc0] [1] true none), rfl⟩
+  have hdec : mpDecode [0x92, 1, 2, 0xc0] = .ok (.arr [.uint 1, .uint 2], [0xc0]) := rfl
+  have hm : (mpTrial (Handle.fromReader (Source.new [0x92, 1, 2, 0xc0] [1] true none))).1 =
+      .answer .matched := by
+    rw [mpTrial, mpTrialWith_answer mpChunk hi, hdec]
+    decide
+  have hdet := (detectOn_msgpack declining _).1.mpr hm
+  refine ⟨hdet, ?_⟩
+  obtain ⟨v, rest, h1, h2, h3⟩ :=
+    (detect_reads_first_doc_only declining (Source.new [0x92, 1, 2, 0xc0] [1] true none) rfl).1 hdet
+  have : mpDecode (Source.new [0x92, 1, 2, 0xc0] [1] true none).data =
+      .ok (.arr [.uint 1, .uint 2], [0xc0]) := hdec
+  rw [this] at h1
+  simp only [Except.ok.injEq, Prod.mk.injEq] at h1
+  refine ⟨?_, h3⟩
+  rw [h2, ← h1.2]
+  rfl
+
+/-- `detect_then_explicit` instantiated on that input: the detected run is the
+MessagePack module on a READER holding the four original bytes. -/
+example :
+    translate declining (concrete (X := Unit) (fun _ => ()) (fun _ => ())) none
+        (.reader (Source.new [0x92, 1, 2, 0xc0] [1] true none)) =
+      .ran (msgpackRun (.reader [0x92, 1, 2, 0xc0] false)) := by
+  obtain ⟨hdet, _, hcap⟩ := sample_msgpack_detected
+  obtain ⟨seen', h1, h2, _, _⟩ := detect_then_explicit declining
+    (concrete (X := Unit) (fun _ => ()) (fun _ => ())) (.reader (Source.new [0x92, 1, 2, 0xc0] [1] true none))
+    rfl .msgpack hdet
+  rw [h2, h1]
+  have : sliceMode (detectOn declining (Src.reader (Source.new [0x92, 1, 2, 0xc0] [1] true none)).handle).2 =
+      false := hcap
+  rw [this]
+  rfl
+
+/-- The hypotheses of `detect_then_explicit_json_partial` are satisfiable: `[1]`
+as a slice is detected as JSON and lies outside K1's class. -/
+example : (detectOn declining (Src.slice [0x5B, 0x31, 0x5D]).handle).1 = .det (.fmt .json) ∧
+    Xt.Json.hasUnseparatedScalar [0x5B, 0x31, 0x5D] = false := by
+  have hi : HInv [0x5B, 0x31, 0x5D] none (Src.slice [0x5B, 0x31, 0x5D]).handle := rfl
+  have htr : Xt.Json.trialReader [0x5B, 0x31, 0x5D] = true := by
+    simp [Xt.Json.trialReader, Xt.Json.ignoreValue, Xt.Json.igValue_eq, Xt.Json.igAfter_eq,
+      Xt.Json.nextF, Xt.Json.doneF, Xt.Json.skipWs, Xt.Json.isWs, Xt.Json.classify, Xt.Json.isDigit,
+      Xt.Json.ignoreNumber, Xt.Json.takeDigits]
+  have hm : (mpTrial (Src.slice [0x5B, 0x31, 0x5D]).handle).1 = .answer .noMatch := by
+    rw [mpTrial, mpTrialWith_answer mpChunk hi]
+    simp [msgpackMatches, markerTest, Marker.fromU8, Marker.isCollection]
+  have hi1 : HInv [0x5B, 0x31, 0x5D] none (mpTrial (Src.slice [0x5B, 0x31, 0x5D]).handle).2 :=
+    (mpTrialWith_keeps mpChunk).inv _ _ _ hi
+  have hj : (jsonTrial (mpTrial (Src.slice [0x5B, 0x31, 0x5D]).handle).2).1 = .answer .matched := by
+    rw [jsonTrial, jsonTrialWith_answer jsonChunk hi1]
+    have hv : Xt.Json.validUtf8 [0x5B, 0x31, 0x5D] = true := by decide
+    cases hsm : sliceMode (mpTrial (Src.slice [0x5B, 0x31, 0x5D]).handle).2 <;>
+      simp [jsonMatches, jsonClass, htr, hv]
+  refine ⟨(detectOn_json declining _).1.mpr ⟨hm, hj⟩, ?_⟩
+  have p1 : Xt.Json.parseValue Xt.Json.depthLimit [0x5B, 0x31, 0x5D] = .ok (.arr [.int 1], []) := by
+    have := Xt.Props.Json.json_roundtrip_document Xt.Json.markerFloat (.arr [.int 1]) (by decide) (by decide)
+    simpa [Xt.Json.write, Xt.Json.writeElems, Xt.Json.intDec, Xt.Json.natDec] using this
+  have h0 : Xt.Json.hasUnseparatedScalar [] = false := by
+    rw [Xt.Json.hasUnseparatedScalar_eq]; simp [Xt.Json.skipWs]
+  rw [Xt.Json.hasUnseparatedScalar_eq]
+  simp [Xt.Json.skipWs, Xt.Json.isWs, p1, Xt.Json.isSelfDelim, Xt.Json.endOk, h0]
+
+end TranslateComposition
+
 #print axioms capture_transparent
 #print axioms capture_transparent_from
 #print axioms capture_invariant
@@ -978,5 +1599,16 @@ example : msgpackMatches (.ok [0x92, 1]) (.readErr true) = .noMatch ∧
 #print axioms detect_io_only_from_source
 #print axioms msgpack_marker_table
 #print axioms toml_trial_capped
+#print axioms translate_no_panic
+#print axioms detect_is_decision_list
+#print axioms detect_then_explicit
+#print axioms detect_then_explicit_msgpack
+#print axioms detect_then_explicit_json_partial
+#print axioms detect_slice_eq_reader_msgpack
+#print axioms detect_slice_eq_reader_json_partial
+#print axioms detect_slice_ne_reader_json_counterexample
+#print axioms detect_reads_first_doc_only
+#print axioms detect_msgpack_trial_reads_enough
+#print axioms detected_translatable_same_format
 
 end Xt.Props.C09
